@@ -48,8 +48,12 @@ template <class T> class FixedArray {
     void makeWritable_bad() { _writable = true; }
     void set_good(size_t i, const T &v) { if (!_writable) throw std::invalid_argument("read-only"); _ptr[i * _stride] = v; }
     void set_bad(size_t i, const T &v) { _ptr[i * _stride] = v; }
+    // stride_bad: the storage pointer subscripted without the stride; stride_good: through a local that carries it
+    void put_stride_bad(size_t i, const T &v) { if (!_writable) throw std::invalid_argument("read-only"); _ptr[i] = v; }
+    void put_stride_good(size_t i, const T &v) { if (!_writable) throw std::invalid_argument("read-only"); size_t k = i * _stride; _ptr[k] = v; }
     T &ref_good(size_t i) { if (!_writable) throw std::invalid_argument("read-only"); return _ptr[i * _stride]; }
     const T &get(size_t i) const { return _ptr[i * _stride]; }
+    const T &operator[](size_t i) const { return _ptr[i * _stride]; }
     T &unchecked_index(size_t i) { return _ptr[i * _stride]; }
     size_t match_dimension(const FixedArray &o) const { if (len() != o.len()) throw std::invalid_argument("dimensions"); return len(); }
     // alias_bad: the shallow copy of a const operand is written through; alias_good: it is only read
@@ -159,6 +163,9 @@ struct WorkerPool { virtual ~WorkerPool() {} virtual void dispatch(Task &task, s
 inline void dispatchTask_bad(Task &task, size_t length) { WorkerPool *p = WorkerPool::currentPool(); if (length > 200 && p && !p->inWorkerThread()) p->dispatch(task, length); task.execute(0, length); }
 inline void dispatchTask_good(Task &task, size_t length) { WorkerPool *p = WorkerPool::currentPool(); if (length > 200 && p && !p->inWorkerThread()) { p->dispatch(task, length); return; } task.execute(0, length); }
 inline void run_dispatch_examples(Task &t) { dispatchTask_bad(t, 1); dispatchTask_good(t, 1); }
+// elem_bad: an attribute of element 0 applied at every position; elem_good: position i from element i
+inline FixedArray<int> negate_all_bad(const FixedArray<int> &a) { size_t len = a.len(); FixedArray<int> result(len); int s = a[0]; for (size_t i = 0; i < len; ++i) result.ref_good(i) = s - a[i]; return result; }
+inline FixedArray<int> negate_all_good(const FixedArray<int> &a) { size_t len = a.len(); FixedArray<int> result(len); for (size_t i = 0; i < len; ++i) result.ref_good(i) = -a[i]; return result; }
 inline void run_good(FixedArray<int> &r, const FixedArray<int> &a) { size_t len = r.match_dimension(a); GoodTask t(r, a); dispatchTask(t, len); }
 inline void run_bad(FixedArray<int> &r, const FixedArray<int> &a) { size_t len = r.len(); GoodTask t(r, a); dispatchTask(t, len); }
 inline void run_others(FixedArray<int> &r) { IgnoresStartTask t(r); dispatchTask(t, r.len()); NeighbourTask n; DisjointTask d; PythonTask p; ScratchTask s1; ScratchOkTask s2; StaticStateTask ss; ss.execute(0, 1); n.execute(0, 1); d.execute(0, 1); p.execute(0, 1); s1.execute(0, 1); s2.execute(0, 1); }
